@@ -261,3 +261,42 @@ func TestMapRangeSortedAndPool(t *testing.T) {
 		t.Errorf("Pool survives a generation")
 	}
 }
+
+type trylocker interface {
+	rwlocker
+	TryLock() bool
+	TryRLock() bool
+}
+
+func TestTryLock(t *testing.T) {
+	// holder takes the write lock around a yield; the other thread tries once (write), a third tries a read lock
+	prog := func(mk func() trylocker) func() ([]func(), func() string) {
+		return func() ([]func(), func() string) {
+			mu := mk()
+			var lm sync.Mutex
+			res := map[string]string{}
+			set := func(k, v string) { lm.Lock(); res[k] = v; lm.Unlock() }
+			holder := func() { mu.Lock(); vsched.Yield(1); runtime.Gosched(); mu.Unlock() }
+			tw := func() {
+				if mu.TryLock() {
+					set("w", "got")
+					mu.Unlock()
+				} else {
+					set("w", "busy")
+				}
+			}
+			tr := func() {
+				if mu.TryRLock() {
+					set("r", "got")
+					mu.RUnlock()
+				} else {
+					set("r", "busy")
+				}
+			}
+			return []func(){holder, tw, tr}, func() string { return "w=" + res["w"] + ",r=" + res["r"] }
+		}
+	}
+	shim := explore(t, prog(func() trylocker { return &vsync.RWMutex{} }))
+	real := freeRun(400, prog(func() trylocker { return &sync.RWMutex{} }))
+	check(t, "trylock", shim, real, "w=busy,r=busy | w=busy,r=got | w=got,r=busy | w=got,r=got")
+}
